@@ -11,10 +11,13 @@
    and the quantity syntax of resources/quantity.go
      legal            ^(?P<Number>[0-9]+)\s*(?P<Suffix>([mkKMGTPE]i?)?)$   after strings.TrimSpace *)
 From Coq Require Import List NArith ZArith Bool.
+From Coq Require String Ascii.
 Import ListNotations.
 Open Scope N_scope.
 
 Definition str := list N.
+(* literal: the harness writes printable ASCII strings as Coq string literals (faster to parse) *)
+Definition sb (x : String.string) : str := List.map Ascii.N_of_ascii (String.list_ascii_of_string x).
 
 Fixpoint str_eqb (a b : str) : bool :=
   match a, b with
